@@ -166,7 +166,7 @@ fn miri_slice() -> (String, u64, u64, String) {
 
 pub fn run(ctx: &Ctx) -> Outcome {
     let miri = if ctx.tier == Tier::Thorough { Some(std::thread::spawn(miri_slice)) } else { None };
-    let sp = spaces::unrestricted(ctx.tier, ctx.seed, 4, 4, 3_000, 60_000);
+    let sp = spaces::unrestricted(ctx.tier, ctx.seed, 4, 4, 8_000, 80_000);
     let texts = spaces::texts_mb(ctx.tier.pick(3, 4));
     // quick tier: the 4-node and random trees get the texts up to length 2 plus a seeded sample of
     // the longer ones; the smaller trees get all of them
